@@ -317,6 +317,11 @@ fn run_in(case: &C18Case, nu: &mut Nu) -> Result<CaseInfo, Fail> {
             }
             let mut want: Vec<String> = vec![];
             let mut big_pending = *big_first;
+            // a send without content carries nothing to feed: the instance goes on as if it were not there
+            if sends.len() % 2 == 1 {
+                nu.append("g.send", ctx, None, None)?;
+                labels.push("send-without-content".into());
+            }
             for (target, content) in sends {
                 // (no noise behind the large send: the next send follows it at once)
                 for _ in 0..(if *big_first && !big_pending { 0 } else { *noise }) {
